@@ -102,6 +102,9 @@ type jSig struct {
 	GroupNonce []byte
 }
 type jAssign struct {
+	Eligible   []uint64 // ids of members active with a queued nonce right before this assignment
+	Threshold  uint64
+	Seed       []byte
 	Sig        *mSigning
 	Att        *mAttempt
 	HeadOK     []bool
@@ -416,7 +419,10 @@ func (s *TSSShadow) processEvents(e *Env, blk *world.BlockRecord, evs []Ev, endB
 			}
 			sg.GroupNonce = hexAttr(ev.Get(tsstypes.AttributeKeyGroupPubNonce))
 			ids := ev.Attrs[tsstypes.AttributeKeyMemberID]
-			ja := jAssign{Sig: sg, Att: att, InEndBlock: endBlock}
+			ja := jAssign{Sig: sg, Att: att, InEndBlock: endBlock, Eligible: s.eligible(e, sg.GroupID)}
+			if g := s.group(e, sg.GroupID); g != nil {
+				ja.Threshold = g.Threshold
+			}
 			for i := range ids {
 				mid, _ := strconv.ParseUint(ids[i], 10, 64)
 				am := mAssigned{MemberID: mid, Addr: ev.Attrs[tsstypes.AttributeKeyAddress][i], PubD: hexAttr(ev.Attrs[tsstypes.AttributeKeyPubD][i]),
@@ -496,4 +502,23 @@ func idleOf(a *mAttempt) []string {
 		}
 	}
 	return o
+}
+
+// eligible lists, in ascending member id, the group members that are active and hold a queued nonce in the model.
+func (s *TSSShadow) eligible(e *Env, gid uint64) []uint64 {
+	g := s.group(e, gid)
+	if g == nil {
+		return nil
+	}
+	var out []uint64
+	for _, m := range g.Members {
+		act, known := s.TSSActive[gid][m.Address]
+		if !known {
+			act = m.IsActive
+		}
+		if act && len(s.Queues[m.Address]) > 0 {
+			out = append(out, uint64(m.ID))
+		}
+	}
+	return out
 }
